@@ -164,6 +164,9 @@ type Action struct {
 	// Snippets list, 4 ONE Render call of Sprintf("%v%v...", parts as snippets)
 	Parts []string `json:"parts,omitempty"`
 	Route int      `json:"route,omitempty"`
+	// DocOfFieldTypes: ask Context.Doc about the named type of every field of the struct (whatever package
+	// it lives in, the way runtimedoc / partialstruct style generators do) and render what was answered
+	DocOfFieldTypes bool `json:"doc_of_field_types,omitempty"`
 	// Recovered: text rendered through a template that ends in an unbound name: the render panics after it
 	// yielded this text, and the generator recovers from the panic and carries on (a legal thing to do)
 	Recovered string `json:"render_that_panics_and_is_recovered,omitempty"`
@@ -365,6 +368,27 @@ func (in *inst) generate(gen string, c gengo.Context, named *types.Named) error 
 				c.Render(snippet.Block("func helper_" + gen + "() {}\n"))
 			}
 			c.Render(snippet.Block(fmt.Sprintf("const N_%s_%s = %d // seen=%d\n", typ, gen, in.counter, len(in.seen))))
+		}
+	}
+	if a.DocOfFieldTypes {
+		if st, ok := named.Underlying().(*types.Struct); ok {
+			for i := 0; i < st.NumFields(); i++ {
+				ft := st.Field(i).Type()
+				if p, ok := ft.(*types.Pointer); ok {
+					ft = p.Elem()
+				}
+				fn, ok := ft.(*types.Named)
+				if !ok || fn.Obj().Pkg() == nil {
+					continue
+				}
+				tags, doc := c.Doc(fn.Obj())
+				var ks []string
+				for k, v := range tags {
+					ks = append(ks, k+"="+strings.Join(v, ","))
+				}
+				sort.Strings(ks)
+				c.Render(snippet.Block(fmt.Sprintf("// %s.%s: field %s of type %s.%s has tags [%s] and %d doc lines\n", pkg, typ, st.Field(i).Name(), fn.Obj().Pkg().Path(), fn.Obj().Name(), strings.Join(ks, "; "), len(doc))))
+			}
 		}
 	}
 	return in.perform(c, gen, a, typ)
